@@ -41,12 +41,29 @@ Definition oversize (d : doc) : bool := existsb (fun cj => 255 <? calc_size cj) 
 Definition oversize_first (d : doc) : bool :=
   match d_conjs d with cj :: _ => 255 <? calc_size cj | [] => false end.
 Definition e2e_docok (d : doc) : bool := pl_docok d && negb (oversize d).
+(* an operator the field's container does not support (`<`, `>`, between, or an unknown one on a default or pattern
+   field): the holder PANICS (util.PanicIf), whatever the bad-conjunction policy -- a configuration error, not an
+   unparseable value (DESIGN 7, observations).  Such a document is not indexed when the offending conjunction comes
+   first; other placements leave the earlier conjunctions committed and are outside the specification's domain. *)
+Definition cont_of_field (cfg : list (fname * cont_kind)) (f : fname) : cont_kind :=
+  match alookup N.eqb f cfg with Some k => k | None => CDefault end.
+Definition conj_unsupported (cfg : list (fname * cont_kind)) (cj : conj) : bool :=
+  existsb (fun fe : fname * list expr =>
+    existsb (fun e => match cont_of_field cfg (fst fe), e_op e with
+                      | CRange, _ => false
+                      | _, OpEQ => false
+                      | _, _ => true end) (snd fe)) cj.
+Definition op_unsupported (cfg : list (fname * cont_kind)) (d : doc) : bool := existsb (conj_unsupported cfg) (d_conjs d).
+Definition unsupported_first (cfg : list (fname * cont_kind)) (d : doc) : bool :=
+  match d_conjs d with cj :: _ => conj_unsupported cfg cj | [] => false end.
 
 (* what AddDocument must return *)
 Definition expected_add (c : ecase) (d : doc) : list iadd :=
   if negb (doc_valid d) then [IAddErr]
   else if negb (valid_doc_id (d_id d)) then [IAddErr; IAddPanic]
   else if oversize d then [IAddErr; IAddPanic]
+  else if unsupported_first (k_configs c) d then [IAddPanic]
+  else if op_unsupported (k_configs c) d then [IAddOk; IAddErr; IAddPanic]
   else
     let sems := map (conj_sem (fields_of c) (parsers_of (k_parsers c))) (d_conjs d) in
     if forallb (fun o => match o with Some _ => true | None => false end) sems then [IAddOk]
@@ -71,7 +88,7 @@ Definition query_verdict (c : ecase) (qr : assignment * ires) : bool * N :=
   | IErr => if q_supported c q then (false, 14%N) else (true, 0%N)
   | IRes docs hits =>
     if negb (q_supported c q) then (true, 0%N) else
-    match sat_hits (fields_of c) (parsers_of (k_parsers c)) (k_pol c) e2e_docok (map fst (k_docs c)) q with
+    match sat_hits (fields_of c) (parsers_of (k_parsers c)) (k_pol c) (fun d => e2e_docok d && negb (op_unsupported (k_configs c) d)) (map fst (k_docs c)) q with
     | None => (true, 0%N)
     | Some hs =>
       if negb (nodupZ docs) then (false, 15%N)
@@ -86,7 +103,8 @@ Fixpoint first_bad (l : list (bool * N)) : bool * N :=
 
 Definition distinct_ids (c : ecase) : bool :=
   nodupZ (map (fun da => d_id (fst da)) (k_docs c)) &&
-  forallb (fun da => negb (oversize (fst da)) || oversize_first (fst da)) (k_docs c).
+  forallb (fun da => negb (oversize (fst da)) || oversize_first (fst da)) (k_docs c) &&
+  forallb (fun da => negb (op_unsupported (k_configs c) (fst da)) || unsupported_first (k_configs c) (fst da)) (k_docs c).
 
 Definition spec_verdict (c : ecase) : bool * bool * N :=
   let adds := map (fun da => (existsb (iadd_eqb (snd da)) (expected_add c (fst da)), 10%N)) (k_docs c) in
